@@ -2,7 +2,7 @@
 From Coq Require Import List String Ascii ZArith. Import ListNotations.
 From Coq Require Import List Bool.
 From SV Require Import Lib.Str Model.Types Model.Api Model.Back Model.Doc Proofs.GenProofs Proofs.DocProofs.
-From SV Require Import Model.Api Model.FrontSmall Model.View Model.Front Proofs.FrontProofs.
+From SV Require Import Model.Api Model.FrontSmall Model.View Model.Front Model.DocTypes Model.DocSections Proofs.FrontProofs Proofs.DocSectionsProofs.
 
 (* line for line: the comment body is the first line of the (newline-stripped) description followed by every further
    line behind the comment decoration, blank lines included *)
@@ -54,6 +54,21 @@ Theorem C13_front_parameter_doc : forall env d st f fid a p tv lg amb,
   exists pd cq, doc_param d (fn_fullname f) (ar_name a) cq = Ok pd /\
                 p_doc_type p = pd_type pd /\ p_doc_default p = pd_default pd /\ p_doc_desc p = pd_desc pd.
 Proof. exact parameter_doc_by_own_name. Qed.
+(* THE SECTION EXTRACTION (model of DocstringParser.get_*_documentation, compared with the code on every class, function,
+   parameter, attribute and result of generated docstrings in the three structured styles) *)
+Theorem C13_description_intact : forall s, outer_nl_free s = true -> strip_nl s = s.
+Proof. exact description_intact. Qed.
+Theorem C13_general_doc_description : forall gd secs v rest,
+  gd_sections gd = secs ++ SText v :: rest -> Forall (fun s => match s with SText _ => False | _ => True end) rest ->
+  d_desc (general_doc (Some gd)) = strip_nl v.
+Proof. exact general_doc_description. Qed.
+Theorem C13_matching_ignores_stars : forall params gd name,
+  matching params gd (K"*" ++ name) = matching params gd name /\ matching params gd (K"**" ++ name) = matching params gd name.
+Proof. exact matching_ignores_stars. Qed.
+Theorem C13_param_doc_last_match : forall st gd pname ms lastp,
+  matching true gd pname = ms ++ [lastp] ->
+  pd_desc (param_doc st false None (Some gd) false pname) = strip_nl (di_desc lastp).
+Proof. exact param_doc_last_match. Qed.
 Print Assumptions C13_cache_transparent.
 Print Assumptions C13_cache_coherent.
 Print Assumptions C13_lookup_same_name_refuted.
@@ -63,3 +78,7 @@ Print Assumptions C13_no_description_no_comment.
 Print Assumptions C13_front_class_doc.
 Print Assumptions C13_front_function_doc.
 Print Assumptions C13_front_parameter_doc.
+Print Assumptions C13_description_intact.
+Print Assumptions C13_general_doc_description.
+Print Assumptions C13_matching_ignores_stars.
+Print Assumptions C13_param_doc_last_match.
